@@ -32,11 +32,23 @@ def run(ctx):
                "operands) combine self and other with the right signs; "
                "polynomial long division leaves its loop only with a remainder "
                "of smaller degree than the divisor")
-    ctx.decline("Euclid, lcm, the FFT's arithmetic, polynomial arithmetic "
-                "(numeric)")
+    ctx.decide("integer_power, extended_euclidean and the Horner evaluation of "
+               "Polynomial nodes, interpreted abstractly over polynomial normal "
+               "forms: x**n for every n (loop invariant), Bezout's identity for "
+               "every input (loop invariant), Horner value on enumerated "
+               "exponent shapes; no augmented assignment on caller-owned "
+               "arguments")
+    ctx.decide("Polynomial's operators (-p, p**k, p*s, s*p, p+q, p-q, p*q, "
+               "divmod) interpreted on abstract instances with symbolic field "
+               "coefficients and enumerated exponent shapes: value of the result "
+               "== the operation on the values; results stay normalised")
+    ctx.decline("lcm, the FFT's arithmetic; Polynomial arithmetic across "
+                "different bases and over coefficient rings that are not fields "
+                "(see the known finding on __divmod__)")
     ctx.assume("traits.common_traits classifies operand types as documented")
 
     _integer_power(ctx, model)
+    _kernels(ctx, model)
     _polynomial_traversals(ctx, model)
     _quotient(ctx, model)
     _legacy_hashable(ctx, model)
@@ -242,6 +254,79 @@ def _integer_power(ctx, model):
            "has n >= 0" if ok and saw_raise else
            "integer_power can enter its loop or return a value without having "
            "refused n < 0")
+
+
+def _kernels(ctx, model):
+    """integer_power and extended_euclidean interpreted over polynomial normal
+    forms (pv/absint.py, pv/kernels.py): bounded enumeration for witnesses, a
+    loop-invariant argument for all inputs"""
+    from .. import kernels
+    m, fn = model.func(f"{ALG}:integer_power")
+    loc = m.loc(fn)
+    r = kernels.integer_power_rule(fn)
+    strength = ("for every n >= 0 (invariant acc * x**n == x0**N, n >= 0, "
+                "decreasing)") if r["proved"] else \
+        f"for n = 0..{r['checked_n'][-1]} (the invariant template did not fit: " \
+        f"{r['why']})"
+    ok = not r["witnesses"]
+    ctx.ob("P/integer_power/value", ok, loc,
+           f"integer_power(x, n, one) is one * x**n in the free monoid {strength}"
+           if ok else
+           "integer_power(x, n, one) is not x**n: " + "; ".join(
+               f"n = {n} gives {got}" for n, got in r["witnesses"][:4]),
+           {"proved_for_all_n": r["proved"], "checked_n": r["checked_n"]})
+    ok = not r["inplace"]
+    ctx.ob("T/integer_power/arguments-not-updated-in-place", ok, loc,
+           "no augmented assignment acts on an object the caller passed in"
+           if ok else
+           "; ".join(f"line {ln}: '{src}' acts on the object passed as '{who}'"
+                     for ln, src, who in r["inplace"]) +
+           ": for a monoid whose elements are mutable (numpy matrices) the "
+           "caller's unit element is overwritten, and the next power computed "
+           "with it is wrong")
+    m, fn = model.func(f"{ALG}:extended_euclidean")
+    loc = m.loc(fn)
+    r = kernels.euclid_rule(fn)
+    ok = not r["witnesses"]
+    strength = ("for every input (relations q == Q[0]*q0 + Q[1]*r0 and "
+                "r == R[0]*q0 + R[1]*r0 are kept by each round)") if r["proved"] \
+        else f"on {r['paths']} ways through up to 3 rounds (the invariant " \
+        f"template did not fit: {r['why']})"
+    ctx.ob("P/extended_euclidean/bezout", ok, loc,
+           f"the returned (g, a, b) satisfies g == a*q + b*r {strength}" if ok
+           else "extended_euclidean returns (g, a, b) with g != a*q + b*r: " +
+           r["witnesses"][-1][:400],
+           {"proved_for_all_inputs": r["proved"], "paths": r["paths"]})
+    ctx.floor("extended_euclidean: ways explored", r["paths"], 4)
+    # Horner evaluation of Polynomial nodes
+    ev = model.cls("pymbolic.mapper.evaluator:EvaluationMapper")
+    mem = model.lookup(ev, "map_polynomial")
+    if mem is None or mem.kind != "func":
+        raise AnalysisError("EvaluationMapper.map_polynomial not found")
+    wit = kernels.horner_numeric_rule(mem.node)
+    ctx.ob("P/EvaluationMapper.map_polynomial/value", not wit,
+           mem.owner.module.loc(mem.node),
+           f"evaluates to sum coeff * base**exp on {len(kernels.EXPONENT_SHAPES)}"
+           " exponent shapes (dense, sparse, with and without constant term)"
+           if not wit else
+           "map_polynomial does not evaluate to sum coeff * base**exp: " +
+           "; ".join(f"exponents {e}: {got} instead of {want}"
+                     for e, got, want in wit[:3]),
+           {"shapes": [list(e) for e in kernels.EXPONENT_SHAPES]})
+    # Polynomial's own operators
+    wit, n_cases = kernels.polynomial_arith_rule(model)
+    pc = model.cls("pymbolic.polynomial:Polynomial")
+    ctx.ob("P/Polynomial/operators-homomorphic", not wit, pc.loc(),
+           f"-p, p**k, p*s, s*p, p+q, p-q, p*q, divmod(p, q): the value of the "
+           f"result is that operation on the values ({n_cases} operand shapes, "
+           "symbolic coefficients from a field, one base), results keep "
+           "strictly increasing exponents and no zero coefficients"
+           if not wit else
+           "Polynomial arithmetic is not homomorphic to the values: " +
+           "; ".join(w[:260] for w in wit[:3]) +
+           (f" (and {len(wit) - 3} more)" if len(wit) > 3 else ""),
+           {"cases": n_cases})
+    ctx.floor("Polynomial operator cases", n_cases, 150)
 
 
 def _polynomial_traversals(ctx, model):
